@@ -736,10 +736,36 @@ pub fn object_is_prototype_of(
 /// Returns "[object Type]" based on the internal [[Class]] of the value.
 /// Per ES spec, this checks for Symbol.toStringTag on objects first.
 pub fn object_to_string(
-    _interp: &mut Interpreter,
+    interp: &mut Interpreter,
     this: JsValue,
     _args: &[JsValue],
 ) -> Result<Guarded, JsError> {
+    // A string-valued Symbol.toStringTag (own or inherited, data or getter) names the object
+    if let JsValue::Object(obj) = &this {
+        let tag_key = PropertyKey::Symbol(Box::new(crate::value::JsSymbol::new(
+            interp.well_known_symbols.to_string_tag,
+            Some(interp.intern("Symbol.toStringTag")),
+        )));
+        let descriptor = obj.borrow().get_property_descriptor(&tag_key);
+        let custom = match descriptor {
+            Some((prop, _)) if prop.is_accessor() => match prop.getter() {
+                Some(getter) => {
+                    let result =
+                        interp.call_function(JsValue::Object(getter.clone()), this.clone(), &[])?;
+                    Some(result.value)
+                }
+                None => None,
+            },
+            Some((prop, _)) => Some(prop.value.clone()),
+            None => None,
+        };
+        if let Some(JsValue::String(custom)) = custom {
+            return Ok(Guarded::unguarded(JsValue::String(JsString::from(
+                format!("[object {}]", custom),
+            ))));
+        }
+    }
+
     let tag = match &this {
         JsValue::Undefined => "Undefined",
         JsValue::Null => "Null",
@@ -749,10 +775,18 @@ pub fn object_to_string(
         JsValue::Symbol(_) => "Symbol",
         JsValue::Object(obj) => {
             let obj_ref = obj.borrow();
-            // TODO: Check for Symbol.toStringTag property first
             match &obj_ref.exotic {
                 ExoticObject::Array { .. } => "Array",
                 ExoticObject::Function(_) => "Function",
+                // (an error is an ordinary object that has the error data: its own `stack`)
+                ExoticObject::Ordinary
+                    if obj_ref.has_own_property(&PropertyKey::String(JsString::from("stack")))
+                        && obj_ref.has_own_property(&PropertyKey::String(JsString::from(
+                            "message",
+                        ))) =>
+                {
+                    "Error"
+                }
                 ExoticObject::Ordinary => "Object",
                 ExoticObject::Map { .. } => "Map",
                 ExoticObject::Set { .. } => "Set",
